@@ -21,7 +21,7 @@
 From Coq Require Import List.
 From DL Require Import Lib.Bytes Lib.F64 Lua.Syntax Lua.Sem Model.Evaluator Model.DefaultRules
   Lua.EvalSpec Lua.EvalSpec2 Proof.DefaultRulesSem Proof.DefaultRulesSoundBlock Proof.DefaultRulesSoundExpr
-  Proof.DefaultRulesSoundCond Proof.DefaultRulesSoundFuel.
+  Proof.DefaultRulesSoundCond Proof.DefaultRulesSoundFuel Proof.DefaultRulesSoundFuelInst.
 Import ListNotations.
 Open Scope N_scope.
 
@@ -311,42 +311,40 @@ Print Assumptions C01_empty_do_stmt_sound.
 Check C01_empty_do_stmt_sound : forall d n rho va s r s',
   exec_stmt d n rho va (SDo (Block [] None)) s = Ok r s' -> r = (rho, SigNone) /\ s' = s.
 
-(** at the head of a statement list (PARTIAL: a position after other statements needs fuel
-    monotonicity of the interpreter, which is part of the lifting) *)
-Theorem C01_empty_do_sound_partial : forall d n rho va rest last s r,
+(** at the head of a statement list, for every outcome but running out of fuel *)
+Theorem C01_empty_do_head_sound : forall d n rho va rest last s r,
   exec_stmts d n rho va (SDo (Block [] None) :: rest) last s = r -> r <> Fuel ->
   exists n', exec_stmts d n' rho va rest last s = r.
 Proof. exact empty_do_sound. Qed.
-Print Assumptions C01_empty_do_sound_partial.
-Check C01_empty_do_sound_partial : forall d n rho va rest last s r,
+Print Assumptions C01_empty_do_head_sound.
+Check C01_empty_do_head_sound : forall d n rho va rest last s r,
   exec_stmts d n rho va (SDo (Block [] None) :: rest) last s = r -> r <> Fuel ->
   exists n', exec_stmts d n' rho va rest last s = r.
 
-(** at any position, and for the rule's whole pass over a block, GIVEN fuel monotonicity of the
-    reference interpreter ([stmts_fuel_mono d]: a successful run of a statement list stays the
-    same run with more fuel; a property of Lua/Sem.v alone, proved in another work stream) *)
-Theorem C01_empty_do_filter_sound : forall d, stmts_fuel_mono d ->
-  forall ss n rho va last s r s',
+(** at any position of a statement list, and for the rule's whole pass over a block: a
+    successful run stays the same run (same signal, same store), with the same fuel (uses the
+    fuel monotonicity of the reference interpreter, Proof/LoweringFuel.v) *)
+Theorem C01_empty_do_filter_sound : forall d ss n rho va last s r s',
   exec_stmts d n rho va ss last s = Ok r s' ->
   exec_stmts d n rho va (filter (fun st => negb (empty_do st)) ss) last s = Ok r s'.
-Proof. exact empty_do_filter_sound. Qed.
+Proof. exact empty_do_filter_sound_all. Qed.
 Print Assumptions C01_empty_do_filter_sound.
-Check C01_empty_do_filter_sound : forall d, stmts_fuel_mono d ->
-  forall ss n rho va last s r s',
+Check C01_empty_do_filter_sound : forall d ss n rho va last s r s',
   exec_stmts d n rho va ss last s = Ok r s' ->
   exec_stmts d n rho va (filter (fun st => negb (empty_do st)) ss) last s = Ok r s'.
 
-Theorem C01_empty_do_block_sound : forall d, stmts_fuel_mono d ->
-  forall b n rho va s r s',
+Theorem C01_empty_do_block_sound : forall d b n rho va s r s',
   exec_block d n rho va b s = Ok r s' -> exec_block d n rho va (rw_empty_do b) s = Ok r s'.
-Proof. exact empty_do_block_sound. Qed.
+Proof. exact empty_do_block_sound_all. Qed.
 Print Assumptions C01_empty_do_block_sound.
-Check C01_empty_do_block_sound : forall d, stmts_fuel_mono d ->
-  forall b n rho va s r s',
+Check C01_empty_do_block_sound : forall d b n rho va s r s',
   exec_block d n rho va b s = Ok r s' -> exec_block d n rho va (rw_empty_do b) s = Ok r s'.
 
-(** ** remove_nil_declaration (PARTIAL: every variable initialised by a literal [nil]; the
-    general case permutes the fresh cells) *)
+(** ** remove_nil_declaration.  PARTIAL: proved when the variables keep their order (every
+    variable initialised by a literal [nil]; or the [nil]s trail the other values and there are as
+    many values as variables).  In the general case ([local a, b = nil, e] becomes
+    [local b, a = e]) the fresh cells are bound in another order: equivalence holds only up to a
+    renaming of fresh cells and is left to the lifting. *)
 Theorem C01_nil_decl_partial : forall d xs n rho va s r s',
   xs <> [] -> names_distinct (map param_name xs) = true ->
   exec_stmt d n rho va (SLocal false xs (repeat ENil (List.length xs))) s = Ok r s' ->
@@ -360,18 +358,15 @@ Check C01_nil_decl_partial : forall d xs n rho va s r s',
 
 (** as many values as variables, every literal [nil] behind the other values
     ([local a, b, c = e, nil, nil] becomes [local a, b, c = e], the last value parenthesised
-    when it may yield several): the variables keep their order, same environment and store.
-    GIVEN fuel monotonicity of [eval1] and [eval_list] (see above). *)
-Theorem C01_nil_decl_trailing_sound : forall d, eval1_fuel_mono d -> eval_list_fuel_mono d ->
-  forall xs es k n rho va s r s',
+    when it may yield several): the variables keep their order, same environment and store *)
+Theorem C01_nil_decl_trailing_sound : forall d xs es k n rho va s r s',
   (1 <= k)%nat -> List.length xs = (List.length es + k)%nat ->
   forallb (fun e => negb (is_nil e)) es = true -> names_distinct (map param_name xs) = true ->
   exec_stmt d n rho va (SLocal false xs (es ++ repeat ENil k)) s = Ok r s' ->
   exists n', exec_stmt d n' rho va (rw_nil_declaration (SLocal false xs (es ++ repeat ENil k))) s = Ok r s'.
-Proof. exact nil_decl_trailing_sound. Qed.
+Proof. exact nil_decl_trailing_sound_all. Qed.
 Print Assumptions C01_nil_decl_trailing_sound.
-Check C01_nil_decl_trailing_sound : forall d, eval1_fuel_mono d -> eval_list_fuel_mono d ->
-  forall xs es k n rho va s r s',
+Check C01_nil_decl_trailing_sound : forall d xs es k n rho va s r s',
   (1 <= k)%nat -> List.length xs = (List.length es + k)%nat ->
   forallb (fun e => negb (is_nil e)) es = true -> names_distinct (map param_name xs) = true ->
   exec_stmt d n rho va (SLocal false xs (es ++ repeat ENil k)) s = Ok r s' ->
@@ -500,3 +495,15 @@ Proof. exact call_parens_table_args. Qed.
 Print Assumptions C01_call_parens_table_args.
 Check C01_call_parens_table_args : forall d n rho va ens s,
   eval_args d (S (S (S n))) rho va (ATuple [ETable ens]) s = eval_args d (S n) rho va (ATable ens) s.
+
+(** ... and so do the calls, at the same fuel (uses fuel monotonicity) *)
+Theorem C01_call_parens_table_sound : forall d n rho va p m ens s vs s',
+  eval d n rho va (ECall p m (ATuple [ETable ens])) s = Ok vs s' ->
+  rw_call_parens (ECall p m (ATuple [ETable ens])) = ECall p m (ATable ens) /\
+  eval d n rho va (ECall p m (ATable ens)) s = Ok vs s'.
+Proof. exact call_parens_table_sound. Qed.
+Print Assumptions C01_call_parens_table_sound.
+Check C01_call_parens_table_sound : forall d n rho va p m ens s vs s',
+  eval d n rho va (ECall p m (ATuple [ETable ens])) s = Ok vs s' ->
+  rw_call_parens (ECall p m (ATuple [ETable ens])) = ECall p m (ATable ens) /\
+  eval d n rho va (ECall p m (ATable ens)) s = Ok vs s'.
